@@ -12,22 +12,23 @@ import (
 	"verifharness/mon"
 )
 
-// Concurrent mode.  Every context has a receiver goroutine blocked in RecvMsg
-// and a mutator goroutine that subscribes/unsubscribes "volatile" topics while
-// the publishers publish.  The operations on one context's subscriptions are
-// sequential (one mutator), so their return values and the subscription set at
-// every instant between operations are known exactly; what is not known is
-// when a message arrives relative to them.  Oracle (interval semantics):
+// Concurrent mode.  A case is a number of rounds on one topology.  In a round
+// every context has a receiver goroutine blocked in RecvMsg and a mutator
+// goroutine that subscribes/unsubscribes "volatile" topics while the
+// publishers publish (optionally into queues that were loaded beforehand).
+// The operations on one context's subscriptions are sequential (one mutator),
+// so their return values and the subscription set between operations are
+// known exactly; what is not known is when a message arrives or is taken from
+// the queue relative to them.  Oracle (interval semantics):
 //   - delivered => some prefix topic was possibly subscribed at some instant of
 //     [max(Recv call, Send call), Recv return]   (possibly subscribed: from the
 //     Subscribe call to the return of the Unsubscribe that removed it);
 //   - some prefix topic definitely subscribed from before the Send call until
-//     the context received that publisher's final sentinel => delivered
-//     (totals stay below every queue length, so nothing can overflow);
+//     the context received that publisher's final sentinel of the round =>
+//     delivered (totals stay below every queue length: nothing can overflow);
 //   - per publisher: publication order, no duplicates, nothing unpublished.
 
 const cInf = time.Duration(math.MaxInt64)
-const cFinalID = 0xFFFF
 
 type cDeliv struct {
 	body      []byte
@@ -54,13 +55,21 @@ type cIv struct {
 }
 
 type cCtx struct {
-	cx     *ctxM
-	stable [][]byte
-	vol    [][]byte
-	ops    []cOp
-	mu     sync.Mutex
-	deliv  []cDeliv
-	call   *mon.Call
+	cx      *ctxM
+	stable  [][]byte
+	vol     [][]byte
+	present map[string]bool // volatile topics subscribed at the start of the round
+	ops     []cOp
+	mu      sync.Mutex
+	deliv   []cDeliv
+	call    *mon.Call
+}
+
+type cLog struct {
+	mu      sync.Mutex
+	recs    map[string]*cPubRec
+	round   []*cPubRec
+	nextIdx []int
 }
 
 func runConc(c *mon.Case, sp spec) {
@@ -72,7 +81,7 @@ func runConc(c *mon.Case, sp spec) {
 	var ccs []*cCtx
 	var inUse [][]byte
 	for _, cx := range g.subjects() {
-		cc := &cCtx{cx: cx}
+		cc := &cCtx{cx: cx, present: map[string]bool{}}
 		if !g.subscribe(cx, sentTopic) {
 			return
 		}
@@ -94,42 +103,25 @@ func runConc(c *mon.Case, sp spec) {
 		ccs = append(ccs, cc)
 	}
 
-	// publication log
-	var pmu sync.Mutex
-	recs := map[string]*cPubRec{}
-	nextIdx := make([]int, sp.NPub)
+	lg := &cLog{recs: map[string]*cPubRec{}, nextIdx: make([]int, sp.NPub)}
 	sendRec := func(p int, body []byte) error {
 		rec := &cPubRec{pub: p, body: body}
-		pmu.Lock()
-		rec.idx = nextIdx[p]
-		nextIdx[p]++
-		recs[string(body)] = rec
+		lg.mu.Lock()
+		rec.idx = lg.nextIdx[p]
+		lg.nextIdx[p]++
+		lg.recs[string(body)] = rec
+		lg.round = append(lg.round, rec)
 		g.hist[p][string(body)] = true
-		pmu.Unlock()
+		lg.mu.Unlock()
 		rec.start = mon.Now()
 		err := g.pubs[p].Send(body)
 		rec.end = mon.Now()
 		return err
 	}
-
-	// all bodies are generated up front by the case PRNG (tagged, hence unique)
-	prefill := make([][][]byte, sp.NPub)
-	burst := make([][][]byte, sp.NPub)
-	for p := 0; p < sp.NPub; p++ {
-		if sp.Prefill {
-			for i, n := 0, 20+r.Intn(11); i < n; i++ {
-				prefill[p] = append(prefill[p], g.body(p, genHead(r, inUse), false))
-			}
-		}
-		for i, n := 0, 15+r.Intn(11); i < n; i++ {
-			burst[p] = append(burst[p], g.body(p, genHead(r, inUse), false))
-		}
-	}
-	if sp.Prefill {
-		// load the queues before anybody receives (witness = barrier)
-		_, err, ok := g.call("prefill", "pub/send-stuck", 0, func() (interface{}, error) {
-			for p := range prefill {
-				for _, b := range append(prefill[p], g.sentinel(p, 1)) {
+	sendAll := func(name string, lists [][][]byte) bool {
+		_, err, ok := g.call(name, "pub/send-stuck", 0, func() (interface{}, error) {
+			for p := range lists {
+				for _, b := range lists[p] {
 					if err := sendRec(p, b); err != nil {
 						return nil, err
 					}
@@ -137,168 +129,223 @@ func runConc(c *mon.Case, sp spec) {
 			}
 			return nil, nil
 		})
-		if !ok {
-			return
-		}
-		if err != nil {
+		if ok && err != nil {
 			c.Violate("pub/send-error", "Send on an open PUB socket failed: %v", err)
-			return
+			return false
 		}
+		return ok
+	}
+	// every sentinel is also queued at the witnesses (they subscribe to FEFE)
+	witExpect := func(id int) {
 		for _, ss := range g.socks {
 			for p := 0; p < sp.NPub; p++ {
-				ss.wit.pend[p] = [][]byte{g.sentinel(p, 1)}
-			}
-			if !g.drain(ss.wit) {
-				return
+				ss.wit.pend[p] = append(ss.wit.pend[p], g.sentinel(p, id))
 			}
 		}
+	}
+	witDrain := func() bool {
+		for _, ss := range g.socks {
+			if !g.drain(ss.wit) {
+				return false
+			}
+		}
+		return true
 	}
 
-	// receivers
-	full := 1<<uint(sp.NPub) - 1
-	for _, cc := range ccs {
-		cc := cc
-		cc.call = mon.Go("conc-recv "+cc.cx.name, func() (interface{}, error) {
-			seen := 0
-			for {
-				t0 := mon.Now()
-				m, err := cc.cx.api.RecvMsg()
-				t1 := mon.Now()
-				if err != nil {
-					return nil, err
-				}
-				b := append([]byte{}, m.Body...)
-				for j := range m.Body {
-					m.Body[j] ^= 0x5A // the caller owns the message
-				}
-				m.Free()
-				cc.mu.Lock()
-				cc.deliv = append(cc.deliv, cDeliv{body: b, call: t0, ret: t1})
-				cc.mu.Unlock()
-				if isSentinel(b) && sentID(b) == cFinalID && int(b[2]) < sp.NPub {
-					seen |= 1 << uint(b[2])
-					if seen == full {
-						return nil, nil
-					}
-				}
-			}
-		})
+	sig := fmt.Sprintf("conc|%s|%d|%d|%d|%v|%v", sp.Tr, sp.NPub, sp.NSub, sp.NCtx, sp.Prefill, sp.Spin)
+	qcap := 128 // every queue on the way; a round never has more than 3/4 of it outstanding
+	if sp.QLen > 0 {
+		qcap = sp.QLen
 	}
-	// mutators and publishers
-	var wg sync.WaitGroup
-	seed := r.Int63()
-	for i, cc := range ccs {
-		i, cc := i, cc
-		wg.Add(1)
-		go func() {
-			defer wg.Done()
-			rnd := hx.NewRand(seed + int64(i)*7717)
-			present := map[string]bool{}
-			for k := 0; k < sp.Steps; k++ {
-				t := cc.vol[rnd.Intn(len(cc.vol))]
-				sub := !present[string(t)]
-				switch rnd.Intn(10) {
-				case 0:
-					sub = true // possibly a duplicate
-				case 1:
-					sub = false // possibly absent
-				}
-				opt := mangos.OptionUnsubscribe
-				if sub {
-					opt = mangos.OptionSubscribe
-				}
-				var val interface{} = string(t)
-				if rnd.Intn(2) == 0 {
-					val = append([]byte{}, t...)
-				}
-				op := cOp{sub: sub, topic: t, start: mon.Now()}
-				op.err = cc.cx.api.SetOption(opt, val)
-				op.end = mon.Now()
-				cc.ops = append(cc.ops, op)
-				if op.err == nil {
-					present[string(t)] = sub
-				}
-				if rnd.Intn(3) != 0 {
-					mon.Sleep(time.Duration(rnd.Intn(300)) * time.Microsecond)
-				}
-			}
-		}()
-	}
-	var perr error
-	var perrMu sync.Mutex
-	for p := 0; p < sp.NPub; p++ {
-		p := p
-		wg.Add(1)
-		go func() {
-			defer wg.Done()
-			rnd := hx.NewRand(seed + int64(p)*104123 + 5)
-			for _, b := range burst[p] {
-				if err := sendRec(p, b); err != nil {
-					perrMu.Lock()
-					perr = err
-					perrMu.Unlock()
-					return
-				}
-				if rnd.Intn(2) == 0 {
-					mon.Sleep(time.Duration(rnd.Intn(300)) * time.Microsecond)
-				}
-			}
-		}()
-	}
-	if _, _, ok := g.call("conc-workers", "sub/conc-setoption-or-send-stuck", time.Millisecond, func() (interface{}, error) { wg.Wait(); return nil, nil }); !ok {
-		return
-	}
-	if perr != nil {
-		c.Violate("pub/send-error", "Send on an open PUB socket failed: %v", perr)
-		return
-	}
-	// subscriptions are frozen now; final sentinels
-	_, err, ok := g.call("final-sentinels", "pub/send-stuck", 0, func() (interface{}, error) {
+	for round := 0; round < sp.Rounds && !c.Failed() && !c.Undecided(); round++ {
+		lg.round = nil
+		// all bodies of the round come from the case PRNG (tagged, hence unique)
+		prefill := make([][][]byte, sp.NPub)
+		burst := make([][][]byte, sp.NPub)
 		for p := 0; p < sp.NPub; p++ {
-			if err := sendRec(p, g.sentinel(p, cFinalID)); err != nil {
-				return nil, err
+			if sp.Prefill {
+				for i, n := 0, (qcap*5/16+r.Intn(qcap/6))/sp.NPub; i < n; i++ {
+					prefill[p] = append(prefill[p], g.body(p, genHead(r, inUse), false))
+				}
+			}
+			for i, n := 0, (qcap*5/32+r.Intn(qcap/8))/sp.NPub; i < n; i++ {
+				burst[p] = append(burst[p], g.body(p, genHead(r, inUse), false))
 			}
 		}
-		return nil, nil
-	})
-	if !ok {
-		return
-	}
-	if err != nil {
-		c.Violate("pub/send-error", "Send on an open PUB socket failed: %v", err)
-		return
-	}
-	sig := fmt.Sprintf("conc|%s|%d|%d|%d|%v", sp.Tr, sp.NPub, sp.NSub, sp.NCtx, sp.Prefill)
-	for _, cc := range ccs {
-		res := mon.Await(cc.call.Done, mon.AwaitOpts{})
-		switch res.V {
-		case mon.Done:
-			if _, err, _ := cc.call.Result(); err != nil {
-				c.Violate("sub/recv-error", "%s: RecvMsg on an open context without deadline returned %v", cc.cx.name, err)
+		if sp.Prefill {
+			// load the queues before anybody receives (witness = barrier)
+			g.step++
+			for p := range prefill {
+				prefill[p] = append(prefill[p], g.sentinel(p, g.step))
+			}
+			witExpect(g.step)
+			if !sendAll("prefill", prefill) || !witDrain() {
 				return
 			}
-			sig += concJudge(c, sp, cc, recs, false, "")
-		case mon.Stuck:
-			concJudge(c, sp, cc, recs, true, res.Dump)
-			if !c.Failed() {
-				c.Violate("sub/conc-final-sentinel-not-delivered", "%s never received the final sentinels; receiver blocked\n%s", cc.cx.name, res.Dump)
-			}
-		default:
-			c.Inconclusive("%s: receiver not finished after %v, process still active", cc.cx.name, res.Waited)
 		}
-		if c.Failed() || c.Undecided() {
+		g.step++
+		finalID := g.step
+
+		// receivers
+		full := 1<<uint(sp.NPub) - 1
+		for _, cc := range ccs {
+			cc := cc
+			cc.deliv, cc.ops = nil, nil
+			cc.call = mon.Go("conc-recv "+cc.cx.name, func() (interface{}, error) {
+				seen := 0
+				for {
+					t0 := mon.Now()
+					m, err := cc.cx.api.RecvMsg()
+					t1 := mon.Now()
+					if err != nil {
+						return nil, err
+					}
+					b := append([]byte{}, m.Body...)
+					for j := range m.Body {
+						m.Body[j] ^= 0x5A // the caller owns the message
+					}
+					m.Free()
+					cc.mu.Lock()
+					cc.deliv = append(cc.deliv, cDeliv{body: b, call: t0, ret: t1})
+					cc.mu.Unlock()
+					if isSentinel(b) && sentID(b) == finalID && int(b[2]) < sp.NPub {
+						seen |= 1 << uint(b[2])
+						if seen == full {
+							return nil, nil
+						}
+					}
+				}
+			})
+		}
+		// mutators and publishers
+		var wg sync.WaitGroup
+		seed := r.Int63()
+		for i, cc := range ccs {
+			i, cc := i, cc
+			wg.Add(1)
+			go func() {
+				defer wg.Done()
+				rnd := hx.NewRand(seed + int64(i)*7717)
+				present := map[string]bool{}
+				for k, v := range cc.present {
+					present[k] = v
+				}
+				for k := 0; k < sp.Steps; k++ {
+					t := cc.vol[rnd.Intn(len(cc.vol))]
+					sub := !present[string(t)]
+					switch rnd.Intn(10) {
+					case 0:
+						sub = true // possibly a duplicate
+					case 1:
+						sub = false // possibly absent
+					}
+					opt := mangos.OptionUnsubscribe
+					if sub {
+						opt = mangos.OptionSubscribe
+					}
+					var val interface{} = string(t)
+					if rnd.Intn(2) == 0 {
+						val = append([]byte{}, t...)
+					}
+					op := cOp{sub: sub, topic: t, start: mon.Now()}
+					op.err = cc.cx.api.SetOption(opt, val)
+					op.end = mon.Now()
+					cc.ops = append(cc.ops, op)
+					if op.err == nil {
+						present[string(t)] = sub
+					}
+					if !sp.Spin && rnd.Intn(3) != 0 {
+						mon.Sleep(time.Duration(rnd.Intn(300)) * time.Microsecond)
+					}
+				}
+			}()
+		}
+		var perr error
+		var perrMu sync.Mutex
+		for p := 0; p < sp.NPub; p++ {
+			p := p
+			wg.Add(1)
+			go func() {
+				defer wg.Done()
+				rnd := hx.NewRand(seed + int64(p)*104123 + 5)
+				for _, b := range burst[p] {
+					if err := sendRec(p, b); err != nil {
+						perrMu.Lock()
+						perr = err
+						perrMu.Unlock()
+						return
+					}
+					if !sp.Spin && rnd.Intn(2) == 0 {
+						mon.Sleep(time.Duration(rnd.Intn(300)) * time.Microsecond)
+					}
+				}
+			}()
+		}
+		if _, _, ok := g.call("conc-workers", "sub/conc-setoption-or-send-stuck", time.Millisecond, func() (interface{}, error) { wg.Wait(); return nil, nil }); !ok {
 			return
 		}
+		if perr != nil {
+			c.Violate("pub/send-error", "Send on an open PUB socket failed: %v", perr)
+			return
+		}
+		// subscriptions are frozen now; final sentinels of the round
+		finals := make([][][]byte, sp.NPub)
+		for p := range finals {
+			finals[p] = [][]byte{g.sentinel(p, finalID)}
+		}
+		witExpect(finalID)
+		if !sendAll("final-sentinels", finals) {
+			return
+		}
+		for _, cc := range ccs {
+			res := mon.Await(cc.call.Done, mon.AwaitOpts{})
+			switch res.V {
+			case mon.Done:
+				if _, err, _ := cc.call.Result(); err != nil {
+					c.Violate("sub/recv-error", "%s: RecvMsg on an open context without deadline returned %v", cc.cx.name, err)
+					return
+				}
+				s := concJudge(c, sp, cc, lg, false, "")
+				if round < 3 {
+					sig += s
+				}
+			case mon.Stuck:
+				concJudge(c, sp, cc, lg, true, res.Dump)
+				if !c.Failed() {
+					c.Violate("sub/conc-final-sentinel-not-delivered", "%s never received the final sentinels of round %d; receiver blocked\n%s", cc.cx.name, round, res.Dump)
+				}
+			default:
+				c.Inconclusive("%s: receiver not finished after %v, process still active", cc.cx.name, res.Waited)
+			}
+			if c.Failed() || c.Undecided() {
+				return
+			}
+		}
+		if !witDrain() {
+			return
+		}
+		c.Count("conc_rounds", 1)
+		c.Count("messages_published", len(lg.round))
+	}
+	if c.Failed() || c.Undecided() {
+		return
 	}
 	c.Sig("%s", sig)
 }
 
+// concIntervals turns the round's operation log of one context into
+// subscription intervals, checks every return value, and updates cc.present.
 func concIntervals(c *mon.Case, cc *cCtx) ([]cIv, bool) {
 	var ivs []cIv
 	for _, t := range cc.stable {
 		ivs = append(ivs, cIv{topic: t, possFrom: -1, possTo: cInf, defFrom: -1, defTo: cInf})
 	}
 	cur := map[string]*cIv{}
+	for _, t := range cc.vol {
+		if cc.present[string(t)] {
+			cur[string(t)] = &cIv{topic: t, possFrom: -2, possTo: cInf, defFrom: -2, defTo: cInf}
+		}
+	}
 	for _, op := range cc.ops {
 		k := string(op.topic)
 		c.Count("conc_subscription_ops", 1)
@@ -330,13 +377,15 @@ func concIntervals(c *mon.Case, cc *cCtx) ([]cIv, bool) {
 		ivs = append(ivs, *cur[k])
 		delete(cur, k)
 	}
-	for _, iv := range cur {
+	cc.present = map[string]bool{}
+	for k, iv := range cur {
 		ivs = append(ivs, *iv)
+		cc.present[k] = true
 	}
 	return ivs, true
 }
 
-func concJudge(c *mon.Case, sp spec, cc *cCtx, recs map[string]*cPubRec, stuck bool, dump string) string {
+func concJudge(c *mon.Case, sp spec, cc *cCtx, lg *cLog, stuck bool, dump string) string {
 	ivs, ok := concIntervals(c, cc)
 	if !ok {
 		return ""
@@ -345,18 +394,40 @@ func concJudge(c *mon.Case, sp spec, cc *cCtx, recs map[string]*cPubRec, stuck b
 	deliv := append([]cDeliv{}, cc.deliv...)
 	cc.mu.Unlock()
 	name := cc.cx.name
+	// win: when set, only the subscription operations overlapping [win[0], win[1]] are listed
+	var win []time.Duration
 	desc := func() string {
-		s := fmt.Sprintf("%s stable %s volatile %s; %d deliveries, %d subscription operations", name, hexs(cc.stable), hexs(cc.vol), len(deliv), len(cc.ops))
+		s := fmt.Sprintf("%s stable %s volatile %s; %d deliveries, %d subscription operations in this round", name, hexs(cc.stable), hexs(cc.vol), len(deliv), len(cc.ops))
+		n := 0
 		for _, op := range cc.ops {
+			if len(win) == 2 && (op.start > win[1] || op.end < win[0]) {
+				continue
+			}
+			if n++; n > 60 {
+				s += "\n  ..."
+				break
+			}
 			k := "Unsubscribe"
 			if op.sub {
 				k = "Subscribe"
 			}
 			s += fmt.Sprintf("\n  [%v..%v] %s(%x) -> %v", op.start, op.end, k, op.topic, op.err)
 		}
+		if len(win) == 2 {
+			s += fmt.Sprintf("\n  (operations overlapping [%v..%v] only)", win[0], win[1])
+		}
 		return s
 	}
+	unsubOverlaps := func(from, to time.Duration) bool {
+		for _, op := range cc.ops {
+			if !op.sub && op.err == nil && op.start <= to && op.end >= from {
+				return true
+			}
+		}
+		return false
+	}
 	last := make([]int, sp.NPub)
+	lastAt := make([]int, sp.NPub)
 	for p := range last {
 		last[p] = -1
 	}
@@ -367,7 +438,7 @@ func concJudge(c *mon.Case, sp spec, cc *cCtx, recs map[string]*cPubRec, stuck b
 	}
 	volOnly, overlapUnsub := 0, 0
 	for i, d := range deliv {
-		rec := recs[string(d.body)]
+		rec := lg.recs[string(d.body)]
 		if rec == nil {
 			c.Violate("sub/delivered-unpublished", "%s delivered %x, which no publisher sent (modified or invented)", name, d.body)
 			return ""
@@ -378,16 +449,26 @@ func concJudge(c *mon.Case, sp spec, cc *cCtx, recs map[string]*cPubRec, stuck b
 		}
 		got[string(d.body)] = true
 		if rec.idx < last[rec.pub] {
-			prev := time.Duration(0)
-			if i > 0 {
-				prev = deliv[i-1].call
+			early := deliv[lastAt[rec.pub]]
+			// the known shape: the Recv that returned the later publication early was in progress
+			// during a successful Unsubscribe on this context, and both publications had been sent
+			// before that Unsubscribe returned (both could be in the queue it rebuilt)
+			cls := "no-concurrent-unsubscribe"
+			earlyRec := lg.recs[string(early.body)]
+			for _, op := range cc.ops {
+				if !op.sub && op.err == nil && op.start <= early.ret && op.end >= early.call && rec.start <= op.end && earlyRec.start <= op.end {
+					cls = "recv-overlaps-unsubscribe"
+					break
+				}
 			}
-			c.Violate("sub/conc-reordered", "%s delivered pub%d #%d (%x, Recv [%v..%v]) after pub%d #%d (previous Recv called at %v): not in the publisher's order\n%s", name, rec.pub, rec.idx, d.body, d.call, d.ret, rec.pub, last[rec.pub], prev, desc())
+			win = []time.Duration{early.call, d.ret}
+			c.Violate("sub/conc-reordered:"+cls, "%s delivered pub%d #%d (%x) by the Recv [%v..%v], and only later pub%d #%d (%x) by the Recv [%v..%v]: not in the publisher's order, no queue overflowed\n%s", name,
+				rec.pub, last[rec.pub], early.body, early.call, early.ret, rec.pub, rec.idx, d.body, d.call, d.ret, desc())
 			return ""
 		}
-		last[rec.pub] = rec.idx
-		if isSentinel(d.body) && sentID(d.body) == cFinalID {
-			finalAt[rec.pub] = d.ret
+		last[rec.pub], lastAt[rec.pub] = rec.idx, i
+		if isSentinel(d.body) {
+			finalAt[rec.pub] = d.ret // the last sentinel of the round is the final one
 		}
 		from := d.call
 		if rec.start > from {
@@ -403,12 +484,13 @@ func concJudge(c *mon.Case, sp spec, cc *cCtx, recs map[string]*cPubRec, stuck b
 			}
 			if iv.possFrom <= d.ret && iv.possTo >= from {
 				matched = true
-				if iv.possFrom < 0 {
+				if iv.possFrom == -1 {
 					stableHit = true
 				}
 			}
 		}
 		if !matched {
+			win = []time.Duration{from - time.Millisecond, d.ret}
 			if ever {
 				c.Violate("sub/conc-stale-after-unsubscribe", "%s delivered %x by a Recv called at %v (returned %v), but every subscription that is a prefix of it had been removed by an Unsubscribe that returned before that\n%s", name, d.body, d.call, d.ret, desc())
 			} else {
@@ -419,22 +501,23 @@ func concJudge(c *mon.Case, sp spec, cc *cCtx, recs map[string]*cPubRec, stuck b
 		if !stableHit {
 			volOnly++
 		}
-		for _, op := range cc.ops {
-			if !op.sub && op.err == nil && op.start <= d.ret && op.end >= d.call {
-				overlapUnsub++
-				break
-			}
+		if unsubOverlaps(d.call, d.ret) {
+			overlapUnsub++
 		}
 	}
 	// continuously subscribed => delivered
 	must := 0
 	now := mon.Now()
-	for _, rec := range recs {
+	lg.mu.Lock()
+	round := append([]*cPubRec{}, lg.round...)
+	lg.mu.Unlock()
+	// the final sentinel of a publisher is the last record of that publisher in the round
+	for _, rec := range round {
 		end := finalAt[rec.pub]
-		if end == cInf {
-			if !stuck {
-				continue
-			}
+		if !stuck && end == cInf {
+			continue
+		}
+		if stuck {
 			end = now
 		}
 		def := false
